@@ -164,7 +164,18 @@ func c05Rejoin(cons string, n int, seed int64, views int, mode string) (*c05Rec,
 		}
 	}
 	spec := wSpec{consensus: cons, n: n, seed: seed}
-	spec.leaders = append(c05Leaders("roundrobin", n, views+2, rng, all), c05Leaders(mode, n, 400, rng, pool)...)
+	if mode == "lag-leads" {
+		// the cut-off replica leads the last views of the isolation phase (they end by timeout among the
+		// others, whose timeout certificate is then newer than their highest QC) and every view of the
+		// suffix: it can make progress only by learning the others' high QC from their sync info
+		spec.leaders = c05Leaders("roundrobin", n, views, rng, all)
+		for i := 0; i < 402; i++ {
+			spec.leaders = append(spec.leaders, lagID)
+		}
+		views += 2
+	} else {
+		spec.leaders = append(c05Leaders("roundrobin", n, views+2, rng, all), c05Leaders(mode, n, 400, rng, pool)...)
+	}
 	w, err := newWorld(spec)
 	if err != nil {
 		return nil, err
@@ -480,7 +491,7 @@ func TestVerifC05(t *testing.T) {
 	// 3. rejoin: one replica cut off for several views, then needed for every quorum
 	for _, cons := range []string{"chainedhotstuff", "simplehotstuff"} {
 		for _, n := range []int{4, 7} {
-			for _, mode := range []string{"fixed", "roundrobin", "scripted"} {
+			for _, mode := range []string{"fixed", "roundrobin", "scripted", "lag-leads"} {
 				for _, views := range []int{6, 12, v.Pick(20, 40)} {
 					for rep := 0; rep < v.Pick(2, 8); rep++ {
 						seed := v.rng.Int63()
